@@ -201,18 +201,25 @@ class LDMService:
             )
         )
 
-    def remove_subscription(self, subscription: SubscriptionInfo) -> None:
+    def remove_subscription(self, subscription: SubscriptionInfo) -> bool:
         """
         Method that removes (pops) a subscription from the subscriptions list.
 
         Parameters
         ----------
         subscription: SubscriptionInfo
+
+        Returns
+        -------
+        bool
+            True if the subscription was stored and has been removed by this call.
         """
         with self._lock:
-            if subscription in self.subscriptions:
+            present = subscription in self.subscriptions
+            if present:
                 self.subscriptions.remove(subscription)
             self.last_checked_subscriptions_time.pop(subscription, None)
+        return present
 
     def find_key_paths_in_list(self, target_key: str, search_result: list) -> list[str]:
         """
@@ -486,6 +493,9 @@ class LDMService:
         for subscription in subscriptions:
             if hash(subscription.subscription_request) == subscription_id:
                 to_remove.add(subscription)
+        # Report what this call removed: a subscription cancelled meanwhile by another call is not cancelled twice.
+        removed = False
         for subscription in to_remove:
-            self.remove_subscription(subscription)
-        return bool(to_remove)
+            if self.remove_subscription(subscription):
+                removed = True
+        return removed
